@@ -43,7 +43,7 @@ def run(chk):
                                  "with nothing needed the supplied values overwrite the loaded ones (setValues)")
     chk.rule("C07-D3.disjoint", "every write to `needed` is empty, or `X - points`, or happens where points is known empty / reset, or comes from the candidate collector")
     chk.rule("C07-D3.collector", "candidate collectors append an index only on the true edge of <loaded set>.missing(index) for that same index; their exclusion set argument is `points`; the result passes the sorting/uniquing MultiIndexSet(Data2D) constructor")
-    chk.rule("C07-D4.effects", "clearRefinement writes exactly needed and the updated_* members; setSurplusRefinement / setAnisotropicRefinement / getCandidateConstructionPoints never (transitively) write points, values or coefficients when points are loaded")
+    chk.rule("C07-D4.effects", "clearRefinement writes exactly needed and the updated_* members; setSurplusRefinement / setAnisotropicRefinement (and their helpers getRefinementCanidates / buildUpdateMap) never (transitively) write points, values or coefficients when points are loaded")
     chk.rule("C07-D5.extent", "the size validated for scale_correction by the container overload equals the extent the local-polynomial refinement indexes (strips x stride), as closed forms over (loaded, needed, outputs, output)")
     chk.rule("C07-D6.tolerance", "sibling buildUpdateMap implementations: tolerance == 0 returns an all-ones map before any normalisation; comparisons against the tolerance treat equality as 'small'")
 
@@ -312,7 +312,9 @@ def run(chk):
             chk.ob("C07-D4.effects", fn.key, "clearRefinement write set", ws == want, fn.where,
                    "writes %s, expected exactly %s" % (sorted(x.rsplit('::', 1)[-1] for x in ws), sorted(x.rsplit('::', 1)[-1] for x in want)))
         prot = {"points", "values"} | set(COEFF_FIELDS)
-        for name in ("setSurplusRefinement", "setAnisotropicRefinement", "getCandidateConstructionPoints", "getRefinementCanidates", "buildUpdateMap"):
+        # getCandidateConstructionPoints is not in this list: the property speaks of set*Refinement / updateGrid / clearRefinement, and the construction call of the
+        # Global and Fourier grids has to load tensors that are complete when they are registered (C09, no delivered sample is dropped)
+        for name in ("setSurplusRefinement", "setAnisotropicRefinement", "getRefinementCanidates", "buildUpdateMap"):
             for fn in db.fns(cls + "::" + name, required=False):
                 chk.saw(fn)
                 cl = eff.closure(fn, skip_node=skip_when_empty)
